@@ -223,26 +223,31 @@ def epigraph_substitution(elementwise_constrs):
     # This function is not necessary for linear programs, but it shouldn't dramatically
     # slow down LP compilation time either. By calling this function even when all
     # constraints might be linear, we can skip a potentially very expensive curvature check.
-    nonlin_atom_to_scalar_exprs = defaultdict(lambda: list())
+    # Atoms which were replaced by epigraph variables in an earlier compilation of a
+    # constraint no longer appear in c.expr; their conic constraints are still needed,
+    # and they must be stated for the very atom objects whose epigraph variables occur in c.expr.
+    atoms_by_id = dict()  # id(atom) -> (atom, scalar expressions in which it is to be replaced)
+    representative = dict()  # equal atoms share the epigraph variable of one representative
     for c in elementwise_constrs:
-        # Atoms which were replaced by epigraph variables in an earlier compilation of this
-        # constraint no longer appear in c.expr; their conic constraints are still needed.
+        for a in getattr(c, '_substituted_atoms', []):
+            atoms_by_id.setdefault(id(a), (a, []))
+            representative.setdefault(a, a)
+    for c in elementwise_constrs:
         substituted = getattr(c, '_substituted_atoms', [])
-        for a in substituted:
-            nonlin_atom_to_scalar_exprs[a] += []
         for se in c.expr.flat:
             for a in se.atoms_to_coeffs:
                 if not isinstance(a, ScalarVariable):
-                    nonlin_atom_to_scalar_exprs[a].append(se)
-                    if not any(a is b for b in substituted):
-                        substituted = substituted + [a]
+                    rep = representative.setdefault(a, a)
+                    atoms_by_id.setdefault(id(rep), (rep, []))[1].append(se)
+                    if not any(rep is b for b in substituted):
+                        substituted = substituted + [rep]
         c._substituted_atoms = substituted
         c.epigraph_checked = True
     nl_cone_data = []
-    for nl in nonlin_atom_to_scalar_exprs:
+    for nl, scalar_exprs in atoms_by_id.values():
         x = nl.epigraph_variable
         A_vals, A_rows, A_cols, b, K = nl.epigraph_conic_form()
-        for se in nonlin_atom_to_scalar_exprs[nl]:
+        for se in scalar_exprs:
             c = se.atoms_to_coeffs[nl]
             del se.atoms_to_coeffs[nl]
             se.atoms_to_coeffs[x] = c
